@@ -55,7 +55,7 @@ class ServerLog:
             return self.done.setdefault(token, threading.Event())
 
 
-def make_env(P, servertype, pool):
+def make_env(P, servertype, pool, variant=None):
     slog = ServerLog()
     ctx = P.callcontext.current_context
 
@@ -112,7 +112,7 @@ def make_env(P, servertype, pool):
         def prop(self, v):
             snapshot(v[0], v[1])
 
-    fx = fixture.Fixture(servertype=servertype, COMMTIMEOUT=0.0, THREADPOOL_SIZE=pool, THREADPOOL_SIZE_MIN=1)
+    fx = fixture.Fixture(servertype=servertype, COMMTIMEOUT=0.0, THREADPOOL_SIZE=pool, THREADPOOL_SIZE_MIN=1, variant=variant)
     fx.register(Svc(), "svc")
     return fx, slog
 
@@ -422,7 +422,8 @@ def plan(tier, seed):
 def run_shard(shard, rec):
     P = fixture.pyro()
     r = gen.rng(rec.seed, "c12", repr(sorted(shard.items())))
-    fx, slog = make_env(P, shard["servertype"], shard["pool"])
+    fx, slog = make_env(P, shard["servertype"], shard["pool"], fixture.variant_for(rec.seed, "c12", repr(sorted(shard.items()))))
+    rec.count("fixture_variant:" + fx.variant)
     try:
         sequential_reuse(fx, slog, rec, r, shard["serializer"])
         if shard.get("inject"):
